@@ -3,6 +3,8 @@ import random
 import itertools
 from .C03 import _rank_profiles, _pick
 
+THOROUGH_SEEDS = 4
+
 
 def cases(tier, seed):
     rng = random.Random(seed + 9)
